@@ -150,7 +150,10 @@ func reference(in []byte) (replies, data []byte, ok bool) {
 
 // run drives the real negotiation code over script and returns what was written back and what
 // the reads after Open return.
-func run(script []int) (wrote, got []byte, err error, pan string) {
+// read sizes used for the reads after Open (the data kept during negotiation may be longer than one read)
+var curReadSizes = []int{8192}
+
+func run(script []int, readSize int) (wrote, got []byte, err error, pan string) {
 	defer func() {
 		if r := recover(); r != nil {
 			pan = fmt.Sprint(r)
@@ -162,8 +165,8 @@ func run(script []int) (wrote, got []byte, err error, pan string) {
 	if err = t.HandleControlChars(a); err != nil {
 		return c.wrote, nil, err, ""
 	}
-	for k := 0; k < 64; k++ {
-		b, rerr := t.Read(8192)
+	for k := 0; k < 256; k++ {
+		b, rerr := t.Read(readSize)
 		got = append(got, b...)
 		if rerr != nil {
 			if c.pos >= len(c.script) {
@@ -207,17 +210,24 @@ func checkM(w *sched.W, name string, in []byte, marks []mark) {
 		}
 		script = append(script, int(b))
 	}
+	for _, rs := range curReadSizes {
+		checkRS(w, name, ms, in, script, timed, rs)
+	}
+}
+
+func checkRS(w *sched.W, name, ms string, in []byte, script0 []int, timed bool, rs int) {
+	script := append([]int{}, script0...) // the conn rewrites gap entries
 	wantR, wantD, wellFormed := reference(in)
 	var wrote, got []byte
 	var err error
 	var pan string
 	if timed {
 		// the gaps are waited out on the virtual clock of a bubble
-		synctest.Test(w.T, func(*testing.T) { wrote, got, err, pan = run(script) })
+		synctest.Test(w.T, func(*testing.T) { wrote, got, err, pan = run(script, rs) })
 	} else {
-		wrote, got, err, pan = run(script)
+		wrote, got, err, pan = run(script, rs)
 	}
-	cse := fmt.Sprintf("%s%s bytes=%v", name, ms, in)
+	cse := fmt.Sprintf("%s%s readsize=%d bytes=%v", name, ms, rs, in)
 	nt := ""
 	if wellFormed {
 		nt = cse
@@ -253,6 +263,7 @@ func checkM(w *sched.W, name string, in []byte, marks []mark) {
 
 func itemScenario(first, k int) sched.Scenario {
 	return sched.Scenario{Name: fmt.Sprintf("items/k=%d/first=%s", k, itemNames[first]), Run: func(w *sched.W) {
+		curReadSizes = []int{8192, 1, 3}
 		seq := make([]int, k)
 		seq[0] = first
 		var rec func(i int)
@@ -289,6 +300,7 @@ func itemScenario(first, k int) sched.Scenario {
 // inside it (the code under test may read more than one byte at a time).
 func segScenario(first, k int) sched.Scenario {
 	return sched.Scenario{Name: fmt.Sprintf("segments/k=%d/first=%s", k, itemNames[first]), Run: func(w *sched.W) {
+		curReadSizes = []int{8192, 2}
 		seq := make([]int, k)
 		seq[0] = first
 		var rec func(i int)
@@ -324,6 +336,7 @@ func segScenario(first, k int) sched.Scenario {
 // combination of byte boundaries. The negotiation phase must not end while the server keeps talking.
 func timedScenario(first int) sched.Scenario {
 	return sched.Scenario{Name: "timed/first=" + itemNames[first], Run: func(w *sched.W) {
+		curReadSizes = []int{8192}
 		const k = 3
 		seq := make([]int, k)
 		seq[0] = first
@@ -362,6 +375,7 @@ var rawSigma = []byte{iac, do, will, sga, nop, 'a'}
 
 func rawScenario(first byte, n int) sched.Scenario {
 	return sched.Scenario{Name: fmt.Sprintf("raw/n=%d/first=%d", n, first), Run: func(w *sched.W) {
+		curReadSizes = []int{8192, 1}
 		buf := make([]byte, n)
 		buf[0] = first
 		var rec func(i int)
@@ -394,7 +408,7 @@ func scenarios(tier string) []sched.Scenario {
 	for it := range items {
 		out = append(out, segScenario(it, k-1), timedScenario(it))
 	}
-	out = append(out, sched.Scenario{Name: "empty", Run: func(w *sched.W) { check(w, nil, "empty", nil, -1) }})
+	out = append(out, sched.Scenario{Name: "empty", Run: func(w *sched.W) { curReadSizes = []int{8192}; check(w, nil, "empty", nil, -1) }})
 	return out
 }
 
@@ -402,7 +416,7 @@ func TestCheck(t *testing.T) {
 	sched.Main(t, sched.Check{
 		ID:          "C15",
 		Level:       "exploration",
-		Rule:        "every sequence of up to k items over {IAC verb opt for 4 verbs x 3 options, IAC NOP, IAC GA, IAC IAC, data 'a', LF} (k=5 quick, 6 thorough) and every byte string over {IAC, DO, WILL, SGA, NOP, 'a'} up to length 7 (9), fed through the real negotiation code (transport.Telnet over an in-memory net.Conn), plus a read timeout at every boundary whose remainder is pure data; every opening of up to k-1 items x every single (and, up to 3 items, double) TCP segment boundary; every opening of up to 3 items x every placement of up to three silences of 0.4 x the socket timeout on a virtual clock (testing/synctest); compared with an RFC 854 reference parser (replies written, bytes returned by the reads after open); distinct_nontrivial = distinct well-formed openings",
+		Rule:        "every sequence of up to k items over {IAC verb opt for 4 verbs x 3 options, IAC NOP, IAC GA, IAC IAC, data 'a', LF} (k=5 quick, 6 thorough) and every byte string over {IAC, DO, WILL, SGA, NOP, 'a'} up to length 7 (9), fed through the real negotiation code (transport.Telnet over an in-memory net.Conn), plus a read timeout at every boundary whose remainder is pure data; every opening of up to k-1 items x every single (and, up to 3 items, double) TCP segment boundary; every opening of up to 3 items x every placement of up to three silences of 0.4 x the socket timeout on a virtual clock (testing/synctest); the reads after open use read sizes {8192, 1, 2 or 3}; compared with an RFC 854 reference parser (replies written, bytes returned by the reads after open); distinct_nontrivial = distinct well-formed openings",
 		Assumptions: []string{"the negotiation phase lasts while the gaps between bytes stay below half the socket timeout (a quarter before the first byte); timeouts are injected only where the remainder is pure data", "sub-negotiation (IAC SB) is outside the alphabet"},
 		Scenarios:   scenarios,
 		Budget:      map[string]time.Duration{"quick": 4 * time.Minute, "thorough": 30 * time.Minute},
